@@ -132,7 +132,14 @@ fn object_of(a: &M) -> Option<&M> {
 
 macro_rules! typed {
     ($ctx:expr, $env:expr, $leaf:expr, $t:ty, $name:expr, $to_item:expr) => {{
-        let r = nopanic!($ctx, $env.extract_subject::<$t>(), "extract", "C15/extract");
+        typed!(@route $ctx, $env.extract_subject::<$t>(), "extract_subject", $leaf, $t, $name, $to_item);
+    }};
+    // the conversion route (TryFrom<Envelope>): try_as on a bare leaf element
+    (@try_as $ctx:expr, $env:expr, $leaf:expr, $t:ty, $name:expr, $to_item:expr) => {{
+        typed!(@route $ctx, $env.try_as::<$t>(), "try_as", $leaf, $t, $name, $to_item);
+    }};
+    (@route $ctx:expr, $call:expr, $route:expr, $leaf:expr, $t:ty, $name:expr, $to_item:expr) => {{
+        let r = nopanic!($ctx, $call, "extract", "C15/extract");
         if let Ok(v) = r {
             let item: Item = $to_item(v);
             let enc = cbor::encode(&item);
@@ -148,9 +155,9 @@ macro_rules! typed {
             if !ok && $ctx.note_known(&key) {
                 // listed dependency defect: counted, the case goes on
             } else {
-                check!($ctx, ok, "extract", &key, "extract_subject::<{}>() returned a value that is not the stored one: stored {} extracted {}", $name, stored.map(|b| cbor::diag_bytes(b)).unwrap_or("<not a leaf>".into()), cbor::diag(&item));
+                check!($ctx, ok, "extract", &key, "{}::<{}>() returned a value that is not the stored one: stored {} extracted {}", $route, $name, stored.map(|b| cbor::diag_bytes(b)).unwrap_or("<not a leaf>".into()), cbor::diag(&item));
             }
-            $ctx.class(&format!("extract-ok:{}", $name));
+            $ctx.class(&format!("{}-ok:{}", if $route == "try_as" { "try_as" } else { "extract" }, $name));
         }
     }};
 }
@@ -344,6 +351,33 @@ pub fn run(data: &[u8], ctx: &mut Ctx) -> Outcome {
                 let ok = leaf_of(innermost_subject(obj)).map(|b| *b == cbor::encode(&Item::T(sv.clone()))).unwrap_or(false);
                 check!(ctx, ok, "lookup", "C15/lookup/extract", "extract_object_for_predicate::<String> returned {:?}, which is not the stored object", sv);
             }
+            // the conversion route through a lookup (the object itself must be the leaf)
+            let own = leaf_of(obj);
+            let r = nopanic!(ctx, e.try_object_for_predicate::<String>(probe.clone()), "lookup", "C15/lookup/try");
+            if let Ok(sv) = r {
+                check!(ctx, own.map(|b| *b == cbor::encode(&Item::T(sv.clone()))).unwrap_or(false), "lookup", "C15/lookup/try", "try_object_for_predicate::<String> returned {:?}, which is not the stored object {}", sv, obj.show());
+            }
+            let r = nopanic!(ctx, e.try_object_for_predicate::<i64>(probe.clone()), "lookup", "C15/lookup/try");
+            if let Ok(v) = r {
+                check!(ctx, own.map(|b| *b == cbor::encode(&int_item(v))).unwrap_or(false), "lookup", "C15/lookup/try", "try_object_for_predicate::<i64> returned {}, which is not the stored object {}", v, obj.show());
+            }
+            let r = nopanic!(ctx, e.try_optional_object_for_predicate::<f32>(probe.clone()), "lookup", "C15/lookup/try");
+            if let Ok(Some(v)) = r {
+                let ok = own.map(|b| *b == cbor::encode(&Item::F(v as f64))).unwrap_or(false);
+                // integers extracted as floats: listed dependency findings (K4, K5), same keys as above
+                let int_stored = own.and_then(|b| b.first()).map(|b| b >> 5 <= 1).unwrap_or(false);
+                if !(int_stored && !ok) {
+                    check!(ctx, ok, "lookup", "C15/lookup/try", "try_optional_object_for_predicate::<f32> returned {}, which is not the stored object {}", v, obj.show());
+                }
+            }
+            let r = nopanic!(ctx, e.try_objects_for_predicate::<f64>(probe.clone()), "lookup", "C15/lookup/try");
+            if let Ok(vs) = r {
+                let ok = vs.len() == 1 && own.map(|b| *b == cbor::encode(&Item::F(vs[0]))).unwrap_or(false);
+                let int_stored = own.and_then(|b| b.first()).map(|b| b >> 5 <= 1).unwrap_or(false);
+                if !(int_stored && !ok) {
+                    check!(ctx, ok, "lookup", "C15/lookup/try", "try_objects_for_predicate::<f64> returned {:?}, which is not the stored object {}", vs, obj.show());
+                }
+            }
         }
     }
 
@@ -365,6 +399,22 @@ pub fn run(data: &[u8], ctx: &mut Ctx) -> Outcome {
         typed!(ctx, el, leaf, f64, "f64", |v: f64| Item::F(v));
         typed!(ctx, el, leaf, bool, "bool", |v: bool| if v { Item::True } else { Item::False });
         typed!(ctx, el, leaf, dcbor::ByteString, "ByteString", |v: dcbor::ByteString| Item::B(v.to_vec()));
+        // the TryFrom<Envelope> conversions (try_as, try_object_for_predicate, ...) work on the element itself
+        let own = leaf_of(em);
+        typed!(@try_as ctx, el, own, String, "String", |v: String| Item::T(v));
+        typed!(@try_as ctx, el, own, u8, "u8", |v: u8| Item::U(v as u64));
+        typed!(@try_as ctx, el, own, u16, "u16", |v: u16| Item::U(v as u64));
+        typed!(@try_as ctx, el, own, u32, "u32", |v: u32| Item::U(v as u64));
+        typed!(@try_as ctx, el, own, u64, "u64", |v: u64| Item::U(v));
+        typed!(@try_as ctx, el, own, usize, "usize", |v: usize| Item::U(v as u64));
+        typed!(@try_as ctx, el, own, i8, "i8", |v: i8| int_item(v as i64));
+        typed!(@try_as ctx, el, own, i16, "i16", |v: i16| int_item(v as i64));
+        typed!(@try_as ctx, el, own, i32, "i32", |v: i32| int_item(v as i64));
+        typed!(@try_as ctx, el, own, i64, "i64", |v: i64| int_item(v));
+        typed!(@try_as ctx, el, own, f32, "f32", |v: f32| Item::F(v as f64));
+        typed!(@try_as ctx, el, own, f64, "f64", |v: f64| Item::F(v));
+        typed!(@try_as ctx, el, own, bool, "bool", |v: bool| if v { Item::True } else { Item::False });
+        typed!(@try_as ctx, el, own, dcbor::ByteString, "ByteString", |v: dcbor::ByteString| Item::B(v.to_vec()));
     }
     ctx.nontrivial = depth >= 2 && interesting;
     Outcome::Pass
